@@ -181,13 +181,16 @@ fn tzif_step() -> Vec<u8> {
     b
 }
 
-fn prepare_machine() -> bool {
-    static READY: std::sync::OnceLock<bool> = std::sync::OnceLock::new();
-    *READY.get_or_init(|| {
-        CREATED.iter().all(|(path, z)| {
+/// Best effort, once per process: a file that cannot be written (no permission for the system
+/// directories) just does not exist, and the generator describes the machine as it finds it.
+fn prepare_machine() {
+    static READY: std::sync::Once = std::sync::Once::new();
+    READY.call_once(|| {
+        for (path, z) in CREATED.iter() {
             let content = match z { None => b"this is not a TZif file\n".to_vec(), Some(o) => tzif_fixed(*o) };
-            creatable(path) && ensure_file(path, &content).is_some()
-        }) && ensure_file(STEP_FILE, &tzif_step()).is_some()
+            if creatable(path) { let _ = ensure_file(path, &content); }
+        }
+        let _ = ensure_file(STEP_FILE, &tzif_step());
     })
 }
 
@@ -251,7 +254,7 @@ fn history(a: &[Val]) -> Option<Val> {
     if a.len() != 1 { return None; }
     let steps: Option<Vec<Step>> = a[0].tup()?.iter().map(dec_step).collect();
     let steps = steps?;
-    if !prepare_machine() { return Some(verr("NOFS")); }
+    prepare_machine();
     let _restore = Restore(std::env::var_os("TZ"));
     // every history starts with TZ unset, on a new thread
     std::env::remove_var("TZ");
